@@ -410,6 +410,37 @@ impl<K: Hash + Eq, KH: KeyHasher<K>> TinyLFU<K, KH> {
     }
 }
 
+/// Verification hooks (feature `verif-hooks`).
+#[cfg(feature = "verif-hooks")]
+impl<K, KH> TinyLFU<K, KH> {
+    /// Full state of the estimator: (reset clock, sample size, count-min rows, doorkeeper
+    /// words, sketch seeds or zeros).
+    #[allow(clippy::type_complexity)]
+    pub fn verif_digest(
+        &self,
+    ) -> (
+        usize,
+        usize,
+        alloc::vec::Vec<alloc::vec::Vec<u8>>,
+        alloc::vec::Vec<u64>,
+        [u64; 4],
+    ) {
+        (
+            self.w,
+            self.samples,
+            self.ctr.verif_rows(),
+            self.doorkeeper.verif_words(),
+            self.ctr.verif_seeds(),
+        )
+    }
+
+    /// Installs the given sketch seeds (no-op for the no_std sketch, which has none). Only
+    /// meaningful while the sketch is empty.
+    pub fn verif_reseed(&mut self, seeds: [u64; 4]) {
+        self.ctr.verif_reseed(seeds)
+    }
+}
+
 #[cfg(test)]
 pub(crate) mod test {
     use core::hash::Hasher;
